@@ -86,6 +86,7 @@ func namedTypes(prog *ssa.Program) map[string]types.Type {
 func rawQual(p *types.Package) string { return strings.TrimPrefix(p.Path(), modPrefix) }
 
 var (
+	baselineFns  map[string]bool // nil: no baseline loaded
 	baselinePath string
 	fnAlias      = map[*ssa.Function]string{}
 	fieldAlias   = map[*types.Var]string{}
@@ -235,6 +236,10 @@ func applyBaseline(prog *ssa.Program, all map[*ssa.Function]bool) []string {
 	if json.Unmarshal(raw, &bl) != nil {
 		return nil
 	}
+	baselineFns = map[string]bool{}
+	for _, b := range bl.Funcs {
+		baselineFns[b.Name] = true
+	}
 	var notes []string
 	// named types first: their names are part of method names and of every rendered type
 	typeAliases = nil
@@ -383,4 +388,13 @@ func typName(n *types.Named) string {
 	}
 	q := short(n.Obj().Pkg().Path() + "." + n.Obj().Name())
 	return q[strings.LastIndex(q, ".")+1:]
+}
+
+// isFreshFn: a top-level function that is not in the baseline (and is not a renamed baseline
+// function): a helper introduced after the rule instances were confirmed.
+func isFreshFn(h *ssa.Function) bool {
+	if baselineFns == nil || h.Parent() != nil {
+		return false
+	}
+	return !baselineFns[FnName(h)]
 }
